@@ -330,6 +330,8 @@ class UploadFamily(Family):
         line, cfg = case["line"], case["cfg"]
         buf = bytes.fromhex(case["content"])
         desc = f"{line!r} (status {status}, fault {case.get('fault')})"
+        if case.get("fault") and case["fault"][0] == "fsize":
+            desc += f" [storage has room for {case['fault'][1]} bytes of the file: the kernel stores those and reports a short count]"
         if case.get("via", "ctor") != "ctor":
             desc += f" [handler built via {case['via']} from max={cfg['max']} types={cfg['types']!r} tokens={cfg['tokens']!r} delete={cfg['delete']}]"
         if case.get("timing"):
